@@ -37,8 +37,13 @@ Paths == {"dense_list", "ndarray", "csr", "csc", "coo", "lil", "dok", "edge_list
           \* histories: save, change the node weights, save again, load the second file
           "resave_unit.graphml", "resave_unit.pickle", "resave_w.graphml", "resave_w.pickle",
           \* the spatial subclasses (network file + grid file)
-          "geo_none.graphml", "geo_set.graphml", "geo_set.pickle", "spatial.graphml"}
+          "geo_none.graphml", "geo_set.graphml", "geo_set.pickle", "spatial.graphml",
+          "geo_surface", "geo_irrigation", "geo_switch_irrigation"}
 \* paths whose final node weights are all one (whatever the weights of the case)
+\* paths whose node weights are the geographic ones (cos / cos^2 of latitude: not representable exactly):
+\* the weight vector itself is not compared with the case's weights, its total and mean are compared with
+\* the reported vector
+FreeWeightPaths == {"geo_surface", "geo_irrigation", "geo_switch_irrigation"}
 UnitWeightPaths == {"resave_unit.graphml", "resave_unit.pickle", "geo_none.graphml"}
 \* summary attributes as functions of the abstract network (w scaled by wden)
 NLinksDir(a) == Sum(LAMBDA i : Sum(LAMBDA j : a.A[i][j], 1..Len(a.A)), 1..Len(a.A))
